@@ -62,6 +62,30 @@ def ranges_of(s, uri, result, cache):
     return rs
 
 
+def sweep_one(s, c, uri, cache, sigs, job, m, p):
+    del c.out[:]
+    s.handle({"jsonrpc": "2.0", "id": 1, "method": m, "params": p})
+    ev = None
+    for o in c.out:
+        if o["t"] == "resp":
+            ok = True
+            try:
+                json.dumps(o["result"])
+            except (TypeError, ValueError):
+                ok = False
+            ev = {"k": "resp", "id": "i:1", "tag": "result", "json": ok, "ranges": ranges_of(s, uri, o["result"], cache)}
+        elif o["t"] == "err":
+            tag = {-32601: "MethodNotFound", -32603: "InternalError"}.get(o["code"], "code%s" % o["code"])
+            ev = {"k": "resp", "id": "i:1", "tag": tag, "json": True, "ranges": [], "message": norm_msg(o["message"])}
+    if ev is None:
+        ev = {"k": "noresp"}
+    key = (m, ev.get("tag"), ev.get("message", ""), json.dumps(ev.get("ranges")))
+    if key not in sigs:
+        sigs[key] = {"ev": ev, "req": {"file": job["file"], "method": m, "params": p, "mutated": job.get("text") is not None}, "n": 0}
+    sigs[key]["n"] += 1
+    return 1
+
+
 def sweep(job):
     """job = dict(root, file, text (or None = on disk), colstep, methods, lines(optional subset))"""
     root = job["root"]
@@ -106,27 +130,12 @@ def sweep(job):
                         continue
                     p = {"textDocument": {"uri": uri}, "range": {"start": {"line": ln, "character": 0}, "end": {"line": ln, "character": len(L)}},
                          "context": {"diagnostics": []}}
-                del c.out[:]
-                s.handle({"jsonrpc": "2.0", "id": 1, "method": m, "params": p})
-                nreq += 1
-                ev = None
-                for o in c.out:
-                    if o["t"] == "resp":
-                        ok = True
-                        try:
-                            json.dumps(o["result"])
-                        except (TypeError, ValueError):
-                            ok = False
-                        ev = {"k": "resp", "id": "i:1", "tag": "result", "json": ok, "ranges": ranges_of(s, uri, o["result"], cache)}
-                    elif o["t"] == "err":
-                        tag = {-32601: "MethodNotFound", -32603: "InternalError"}.get(o["code"], "code%s" % o["code"])
-                        ev = {"k": "resp", "id": "i:1", "tag": tag, "json": True, "ranges": [], "message": norm_msg(o["message"])}
-                if ev is None:
-                    ev = {"k": "noresp"}
-                key = (m, ev.get("tag"), ev.get("message", ""), json.dumps(ev.get("ranges")))
-                if key not in sigs:
-                    sigs[key] = {"ev": ev, "req": {"file": job["file"], "method": m, "params": p, "mutated": job.get("text") is not None}, "n": 0}
-                sigs[key]["n"] += 1
+                variants = [p]
+                if m == "textDocument/references":
+                    # ReferenceContext: declaration excluded, and the context left out altogether
+                    variants = [p, dict(p, context={"includeDeclaration": False}), {k: v for k, v in p.items() if k != "context"}]
+                for p in variants:
+                    nreq += sweep_one(s, c, uri, cache, sigs, job, m, p)
     # histories: query, an in-line edit that needs no re-parse, query again - ranges must address the CURRENT text
     if job.get("edits"):
         rnd = random.Random(len(lines))
@@ -234,9 +243,30 @@ def main(tier, seed):
     gen["cont2.f90"] = "module m\n  integer :: q\ncontains\n  subroutine s()\n    integer :: w, &\n" + pad + "& q\n  end subroutine s\nend module m\n"
     gen["cont3.f90"] = "subroutine t(x)\n  implicit none\n  integer :: x\n  integer, intent(in) :: y1, &\n" + pad + pad + "y2\nend subroutine t\n"
     gen["cont4.f90"] = "program u\n  use, &\n" + pad + "nomodule_xyz\n  type(nosuchtype) :: &\n" + pad + "v\nend program u\n"
+    # every bundled intrinsic module and each of its members, USEd and named
+    mods = json.load(open(os.path.join(REPO, "fortls", "parsers", "internal", "intrinsic.modules.json")))
+    body = ["program imods"]
+    for mn in mods:
+        body.append("  use %s" % mn)
+    body += ["  use, intrinsic :: iso_c_binding, only: c_int, c_ptr", "  implicit none", "  integer(int32) :: k", "  type(c_ptr) :: cp"]
+    for mn, mv in mods.items():
+        for ch in (mv.get("children") or [])[: (6 if tier == "quick" else 10 ** 6)]:
+            nm = ch.get("name") if isinstance(ch, dict) else None
+            if nm and re.fullmatch(r"[A-Za-z_]\w*", nm):
+                body.append("  k = %s" % nm)
+    body.append("end program imods")
+    gen["imods.f90"] = "\n".join(body) + "\n"
+    # preprocessed sources: macros that expand to much longer (and shorter) text in front of diagnosed and queried names
+    gen["pp1.F90"] = ("#define DTYPE real(kind=selected_real_kind(15, 307))\n#define SHORT i\n#define LONGCALL(a) call very_long_subroutine_name_for_padding_purposes(a, a, a)\n"
+                      "module ppm\n  implicit none\n  DTYPE :: x\n  DTYPE :: x\n  DTYPE, parameter :: SHORT = 1, SHORT = 2\ncontains\n"
+                      "  subroutine s(a, b)\n    use nomodule_abc\n    DTYPE, intent(in) :: a, nosuch_arg\n    DTYPE :: x, a\n    LONGCALL(a); x = a\n  end subroutine s\n"
+                      "  DTYPE function f(q)\n    DTYPE :: q, q\n    f = q\n  end function f\nend module ppm\n"
+                      "program ppp\n  use ppm; use nomodule_xyz\n  implicit none\n  DTYPE :: y; DTYPE :: y\n  LONGCALL(y); y = f(y)\n  DTYPE :: late_decl\nend program ppp\n")
     d = adapter.mkws(gen)
     try:
         jobs.append({"root": d, "file": "intr.f90", "colstep": 4 if tier == "quick" else 1, "methods": METHODS})
+        jobs.append({"root": d, "file": "imods.f90", "colstep": 2 if tier == "quick" else 1, "methods": METHODS})
+        jobs.append({"root": d, "file": "pp1.F90", "colstep": 1, "methods": METHODS})
         for g in gen:
             if g.startswith("cont"):
                 jobs.append({"root": d, "file": g, "colstep": 1, "methods": METHODS})
